@@ -138,6 +138,7 @@ impl Property for C20Prop {
         match case["kind"].as_str().unwrap_or("") {
             "value" => check_value(&case["value"], stats),
             "int-literal" => check_int_literal(case, stats),
+            "repl" => check_repl_binary(case, stats),
             _ => Verdict::Discard("unknown kind"),
         }
     }
@@ -198,6 +199,68 @@ fn check_value(model: &Json, stats: &mut Stats) -> Verdict {
     } else {
         stats.label("contains MIN_INT (program route skipped)");
     }
+    Verdict::Pass
+}
+
+/// The REPL executable itself (`simplesl` without arguments, lines on stdin): for every value, the
+/// line that is the value's rendering is answered with exactly that rendering on stdout. Each line is
+/// followed by a marker line (a string literal) so that the answers can be told apart.
+fn check_repl_binary(case: &Json, stats: &mut Stats) -> Verdict {
+    use std::io::Write;
+    let Some(bin) = std::env::var("VERIF_SIMPLESL_BIN").ok().filter(|b| !b.is_empty() && std::path::Path::new(b).exists()) else {
+        stats.label("REPL executable not built: route skipped");
+        return Verdict::Discard("REPL executable not available");
+    };
+    let models: Vec<&Json> = case["values"].as_array().map(|a| a.iter().collect()).unwrap_or_default();
+    let mut lines = vec![];
+    for m in &models {
+        if lit::contains_int(m, i64::MIN) {
+            continue;
+        }
+        let v = lit::to_var(m);
+        if let Ok(printed) = run::guarded(|| format!("{v:?}"))
+            && !printed.contains('\n')
+        {
+            lines.push(printed);
+        }
+    }
+    let mut input = String::new();
+    for (k, l) in lines.iter().enumerate() {
+        input += &format!("{l}\n\"#marker{k}#\"\n");
+    }
+    let Ok(mut child) = std::process::Command::new(&bin)
+        .stdin(std::process::Stdio::piped())
+        .stdout(std::process::Stdio::piped())
+        .stderr(std::process::Stdio::null())
+        .spawn()
+    else {
+        return Verdict::Inconclusive("REPL executable did not start");
+    };
+    let mut stdin = child.stdin.take().expect("stdin");
+    let writer = std::thread::spawn(move || {
+        let _ = stdin.write_all(input.as_bytes());
+    });
+    let Ok(out) = child.wait_with_output() else {
+        return Verdict::Inconclusive("REPL executable did not finish");
+    };
+    let _ = writer.join();
+    let text = String::from_utf8_lossy(&out.stdout).to_string();
+    let mut rest = text.as_str();
+    stats.evals(lines.len() as u64);
+    stats.label("REPL executable: lines answered");
+    for (k, l) in lines.iter().enumerate() {
+        let marker = format!("\"#marker{k}#\"\n");
+        let Some(at) = rest.find(&marker) else {
+            return fail("C20:repl:marker", format!("the REPL executable stopped answering after {k} of {} lines (line `{l}`)", lines.len()));
+        };
+        let answer = &rest[..at];
+        if answer != format!("{l}\n") {
+            return fail("C20:repl:answer", format!("the REPL executable answers the line `{l}` with {answer:?} instead of the same text and a line end"));
+        }
+        stats.nontrivial(l);
+        rest = &rest[at + marker.len()..];
+    }
+    stats.sample(2, || json!({"repl_lines": lines.len(), "first": lines.first()}));
     Verdict::Pass
 }
 
@@ -320,6 +383,23 @@ pub fn run(session: &Session) -> i32 {
             }
         }
     }
+    // the same values through the REPL executable, 400 lines per process
+    let values: Vec<Json> = cases.iter().filter(|c| c["kind"] == "value").map(|c| c["value"].clone()).collect();
+    let mut repl_cases = vec![];
+    for chunk in values.chunks(400) {
+        repl_cases.push(json!({"kind": "repl", "values": chunk}));
+    }
+    let mut generated = vec![];
+    for data in session.sample_tapes(session.tier.of(2000, 40000), 120, 9) {
+        let mut tape = Tape::new(data);
+        let depth = tape.below(5);
+        generated.push(gen_value(&mut tape, depth));
+    }
+    for chunk in generated.chunks(400) {
+        repl_cases.push(json!({"kind": "repl", "values": chunk}));
+    }
+    session.set_extra("repl_executable_batches", json!(repl_cases.len()));
+    cases.extend(repl_cases);
     session.set_extra("enumerated_cases", json!(cases.len()));
     if !session.stopped() {
         session.run_enum(&C20, cases);
